@@ -10,6 +10,7 @@ import (
 	"path/filepath"
 	"runtime"
 	"sort"
+	"strconv"
 	"strings"
 	"sync"
 	"sync/atomic"
@@ -177,12 +178,65 @@ func (wp *workerProc) stop() {
 }
 
 // poolRunner distributes a batch over n worker processes of one family.
+// procCPU reads utime+stime of a process from /proc (clock ticks of 10 ms); ok=false where that is not available.
+func procCPU(pid int) (time.Duration, bool) {
+	b, err := os.ReadFile(fmt.Sprintf("/proc/%d/stat", pid))
+	if err != nil {
+		return 0, false
+	}
+	s := string(b)
+	i := strings.LastIndexByte(s, ')') // the command name may contain spaces
+	if i < 0 {
+		return 0, false
+	}
+	f := strings.Fields(s[i+1:])
+	if len(f) < 13 {
+		return 0, false
+	}
+	ut, err1 := strconv.ParseInt(f[11], 10, 64)
+	st, err2 := strconv.ParseInt(f[12], 10, 64)
+	if err1 != nil || err2 != nil {
+		return 0, false
+	}
+	return time.Duration(ut+st) * 10 * time.Millisecond, true
+}
+
 func poolRunner(spec string, n int) (mc.BatchRunner, func(), error) {
+	run, stop, _, err := poolRunnerCPU(spec, n)
+	return run, stop, err
+}
+
+// poolRunnerCPU also returns the average CPU time consumed per worker process so far (nil if /proc is not readable).
+func poolRunnerCPU(spec string, n int) (mc.BatchRunner, func(), func() time.Duration, error) {
+	run, stop, procs, err := poolRunner0(spec, n)
+	if err != nil {
+		return nil, nil, nil, err
+	}
+	var cpu func() time.Duration
+	if _, ok := procCPU(procs[0].cmd.Process.Pid); ok {
+		var last time.Duration
+		cpu = func() time.Duration {
+			var sum time.Duration
+			for _, p := range procs {
+				c, ok := procCPU(p.cmd.Process.Pid)
+				if !ok {
+					return last // a worker that has gone: keep the clock where it was
+				}
+				sum += c
+			}
+			last = sum / time.Duration(len(procs))
+			return last
+		}
+	}
+	return run, stop, cpu, nil
+}
+
+func poolRunner0(spec string, n int) (mc.BatchRunner, func(), []*workerProc, error) {
 	var procs []*workerProc
 	for i := 0; i < n; i++ {
 		wp, err := startWorker(spec)
 		if err != nil {
-			return nil, nil, err
+			return nil, nil, nil, err
 		}
 		procs = append(procs, wp)
 	}
@@ -221,7 +275,7 @@ func poolRunner(spec string, n int) (mc.BatchRunner, func(), error) {
 		wg.Wait()
 		return out
 	}
-	return run, stop, nil
+	return run, stop, procs, nil
 }
 
 func workers() int {
@@ -264,12 +318,13 @@ func runProp(t *testing.T, id string) {
 			defer wg.Done()
 			sem <- struct{}{}
 			defer func() { <-sem }()
-			run, stop, err := poolRunner(id+":"+f.Name, per)
+			run, stop, cpu, err := poolRunnerCPU(id+":"+f.Name, per)
 			if err != nil {
 				errs[i] = fmt.Sprintf("family %s: cannot start workers: %v", f.Name, err)
 				return
 			}
 			defer stop()
+			f.Bounds.CPUNow = cpu
 			if f.Bounds.NoCrashFirst && !f.Bounds.NoCrash {
 				b1 := f.Bounds
 				b1.NoCrash, b1.CrashAfterStore = true, false
